@@ -69,8 +69,10 @@ CtorWantOk(e) ==
     [] e.fn = "FXRates::try_new" -> e.tree
 \* the asserting constructors return a plain value: a wrong shape is refused by aborting (that IS their refusal), a right
 \* one must be built - what may never happen is a mis-shaped number coming out
-Asserting == {"Dual::clone_from", "Dual2::clone_from"}
-AssertWantOk(e) == IF e.fn = "Dual::clone_from" THEN e.nd = e.nvars ELSE e.nd = e.nvars /\ e.rows = e.nvars /\ e.cols = e.nvars
+Asserting == {"Dual::clone_from", "Dual2::clone_from", "PPSpline::new"}
+AssertWantOk(e) == IF e.fn = "Dual::clone_from" THEN e.nd = e.nvars
+                   ELSE IF e.fn = "PPSpline::new" THEN e.sorted                      \* a knot sequence is non-decreasing, end to end
+                   ELSE e.nd = e.nvars /\ e.rows = e.nvars /\ e.cols = e.nvars
 CtorVerdict(e) == IF e.fn \in Asserting THEN (IF AssertWantOk(e) /\ e.o # "ok" THEN "valid-arguments-rejected"
                                                ELSE IF ~AssertWantOk(e) /\ e.o = "ok" THEN "invalid-arguments-accepted" ELSE "")
                   ELSE IF e.o = "panic" THEN "panic"
